@@ -29,7 +29,11 @@ def sig_of(m):
 def run_k(ctx, kres):
     n, ops = (32, 60) if ctx.quick else (600, 120)
     traces = [Trace("pins%d" % i, gen.pin_history(ctx.seed * 15485863 + i, ops, ntok=2 if i % 4 else 3)) for i in range(n)]
-    return k_suite(ctx, kres, "K04-pin-histories", traces, in_projection, sig_of=sig_of)
+    v = k_suite(ctx, kres, "K04-pin-histories", traces, in_projection, sig_of=sig_of)
+    # unit level: RFC4880::PBEDeriveKey against the Lean definition the independent decoder uses
+    from .. import pure
+    v += pure.run_group(ctx, kres, "K04-pure-pbe", "pbe", 40 if ctx.quick else 600)
+    return v
 
 
 def judge(ctx, results):
